@@ -82,7 +82,7 @@ def exBase : ClassDef := ⟨"Base".toList, "tns".toList, none, [("a".toList, .pr
 def exSub : ClassDef := ⟨"Sub".toList, "tns".toList, some "Base".toList,
   [("a".toList, .prim (.integer .i8 {}) {}), ("b".toList, .prim .boolean {})]⟩
 def exReg : Registry := [exBase, exSub]
-def exCfg : Cfg := ⟨.json, .soft, false, .dict, true⟩
+def exCfg : Cfg := ⟨.json, .soft, false, .dict, true, false, true⟩
 
 example : polyCfg exCfg := ⟨rfl, rfl, rfl⟩
 example : exReg.find? exSub.name = some exSub := by simp [exReg, exSub, exBase, Registry.find?]
